@@ -58,6 +58,9 @@ THEOREMS = [
     'serials_distinct',
     'counter_run_properties',
     'serial_reuse_violates',
+    'reentrant_reduces',
+    'reentrant_exactly_once',
+    'retry_during_loss_times_out',
 ]
 TRUSTED_BASE = [
     'Twisted Deferred (fires its callback chain synchronously, raises AlreadyCalledError on a second firing) and '
@@ -74,12 +77,15 @@ ASSUMPTIONS = [
     'serials of the calls on one connection are pairwise distinct (proved for the process-wide counter: theorem '
     'serials_distinct; re-using one MethodCallMessage object through callRemoteMessage is outside the property)',
     'the connection is ready (Hello answered) when calls are issued; connectionLost before that is C09',
-    'user callbacks do not re-enter the connection while connectionLost walks the table (that is C09 / F31)',
+    'a caller\'s errback may issue new calls synchronously (stream reentrant, theorem reentrant_reduces); other '
+    're-entrant use of the connection from callbacks (disconnecting, feeding data) is not generated',
     'Twisted calls connectionLost at most once and delivers no data afterwards',
 ]
 RULE = ('scenarios: all interleavings of per-call event lists (issue, then returns / errors / expiries in every order, '
         'duplicates included) for N <= 3 calls (quick) / N <= 4 (thorough), with an unsolicited reply or a connection '
-        'loss inserted at every position; random schedules for N <= 12; reply contents, return signatures and timeout '
+        'loss inserted at every position; random schedules for N <= 12; errbacks that retry (1-2 new calls, with / '
+        'without deadline) run by an error reply, a deadline, a signature mismatch or the loss, then every short order '
+        'of deadline / reply / loss on the retries, plus random ones; reply contents, return signatures and timeout '
         'kinds rotate over fixed variant tables.  distinct = distinct canonical JSON of the scenario; non-trivial = at '
         'least one call and one event after it')
 
